@@ -2,7 +2,7 @@
 # tools/seed_queue.sh [njobs]: confirm + run the quick check for every delivered seed that has no log yet.
 N=${1:-2}
 cd /verif
-ls -d /tmp/seed-out/*/C??-[ab] 2>/dev/null | while read d; do
+ls -d /tmp/seed-out/*/C??-[a-d] 2>/dev/null | while read d; do
   s=$(basename $d)
   [ -f $d/patch.diff ] && [ -f $d/demo.py ] && [ -f $d/meta.json ] || continue
   [ -e .work/seedlogs/$s.log ] && continue
